@@ -4,7 +4,7 @@ From Coq Require Export String.
 From Coq Require Export Uint63.
 From Coq Require Import Ascii.
 From AGH Require Import Base.Run.
-From AGH Require Export Model.Migrate Model.MigrateLoad Model.MigrateKinds.
+From AGH Require Export Model.Migrate Model.MigrateLoad Model.MigrateKinds Model.MigrateFootprint.
 (* not Local: the shard files contain string literals *)
 Open Scope string_scope.
 
@@ -117,7 +117,18 @@ Inductive case :=
   | CBase (m : obj) (accepted : bool)
   (* a document mutated at one position of the table, and whether
      yaml.Unmarshal into [configuration] accepted it *)
-  | CKind (m : obj) (path : list string) (accepted : bool).
+  | CKind (m : obj) (path : list string) (accepted : bool)
+  (* the Go copy of the footprint table (harness/configmigrate/..._frame_test.go) *)
+  | CFootprints (t : list fp)
+  (* the Go function c13Outside: footprint index, path, verdict *)
+  | CFpOutside (samples : list (nat * path * bool))
+  (* the Go twin of an in-place value function ([value_fn n]): old value at
+     the key, new value as it reads in the written file *)
+  | CValueFn (n : Z) (old : option val) (new : option (option val))
+  (* a document the generator of the loader harness calls valid under schema
+     version [ver] (decoded body), and whether the loader and the start-up
+     stages accepted its upgrade *)
+  | CLoadDoc (ver : Z) (m : obj) (accepted : bool).
 
 Definition res_ok (r : res obj) (cls : Z) (out : obj) : bool :=
   match r with
@@ -157,6 +168,17 @@ Definition case_ok (c : case) : bool :=
   | CTypes types => types_ok types
   | CBase m accepted => accepted && kinds_accept m && covers_table m
   | CKind m path accepted => kind_case_ok m path accepted
+  | CFootprints t => fps_eqb t fp_table
+  | CFpOutside samples =>
+      forallb (fun s => match s with (n, p, b) => Bool.eqb (outside (nth n fp_table FAll) p) b end) samples
+  | CValueFn n old new =>
+      match value_fn n old, new with
+      | None, None => true
+      | Some None, Some None => true
+      | Some (Some a), Some (Some b) => val_eqb (norm a) b
+      | _, _ => false
+      end
+  | CLoadDoc ver m accepted => accepted && loadable (Z.to_nat ver) m
   end.
 
 Definition mismatches := Base.Run.mismatches case_ok.
@@ -188,4 +210,14 @@ Definition explain (c : case) : Z * val :=
       (0%Z, VArr (map (fun ps => VStr (String.concat "." (fst ps)))
                       (filter (fun ps => negb (has_path (VObj m) (fst ps))) (paths_of (schema current) []))))
   | CKind m _ _ => ((if kinds_accept m then 1 else 0)%Z, VNull)
+  | CFootprints t => (Z.of_nat (length (filter (fun ab => negb (fp_eqb (fst ab) (snd ab))) (combine t fp_table))), VNull)
+  | CFpOutside samples =>
+      (Z.of_nat (length (filter (fun s => match s with (n, p, b) => negb (Bool.eqb (outside (nth n fp_table FAll) p) b) end) samples)), VNull)
+  | CValueFn n old _ =>
+      match value_fn n old with
+      | None => (0%Z, VNull)
+      | Some None => (1%Z, VNull)
+      | Some (Some a) => (2%Z, norm a)
+      end
+  | CLoadDoc ver m _ => ((if loadable (Z.to_nat ver) m then 1 else 0)%Z, VNull)
   end.
